@@ -34,6 +34,11 @@ class TreeGen:
             n = rng.choice([n, 10, 21, 22, 23, 40, 64, 130])
             b = bytes(rng.choice(b'\x00\x01\x02\x07\x08\x09\x0a\x0c\x0d\x1b\x1f"\\/') for _ in range(n))
             self.st("string.all_escaped")
+        elif m < 0.12:
+            # code points that serializers like to treat specially (JavaScript line separators, BOM, non-characters, the ends of each UTF-8 length class, DEL, C1 controls)
+            sp = [0x7F, 0x80, 0x85, 0x9F, 0xA0, 0x7FF, 0x800, 0x2027, 0x2028, 0x2029, 0x202A, 0xD7FF, 0xE000, 0xFEFF, 0xFFFD, 0xFFFE, 0xFFFF, 0x10000, 0x1FFFF, 0x10FFFF]
+            b = "".join(chr(rng.choice(sp)) if rng.random() < 0.7 else rng.choice("a \"\\/") for _ in range(max(1, n))).encode("utf-8")
+            self.st("string.special_code_points")
         elif m < 0.35:
             b = bytes(rng.randrange(0x20, 0x7F) for _ in range(n))
         elif m < 0.7:
